@@ -805,6 +805,58 @@ fn write_replay(verif_dir: &Path, id: &str, v: &Violation) -> PathBuf {
     p
 }
 
+/// Structural minimisation of a case that kills the process (signal): each candidate is replayed in a
+/// fresh child process; a candidate is kept if the child also dies from a signal.  Bounded by
+/// candidate count and wall clock.
+fn minimise_crash(exe: &Path, id: &str, text: &str, verif_dir: &Path, work: &Path) -> String {
+    let case = match Case::from_text(text) {
+        Ok(c) => c,
+        Err(_) => return text.to_string(),
+    };
+    let file = work.join("crashmin.case");
+    let t0 = Instant::now();
+    let dies = |c: &Case| -> bool {
+        if t0.elapsed().as_secs() > 90 {
+            return false;
+        }
+        if std::fs::write(&file, c.to_text()).is_err() {
+            return false;
+        }
+        let child = Command::new(exe)
+            .arg("replay")
+            .arg(id)
+            .arg(&file)
+            .env("VERIF_DIR", verif_dir)
+            .stdin(Stdio::null())
+            .stdout(Stdio::null())
+            .stderr(Stdio::null())
+            .spawn();
+        let mut child = match child {
+            Ok(c) => c,
+            Err(_) => return false,
+        };
+        let t1 = Instant::now();
+        loop {
+            match child.try_wait() {
+                Ok(Some(st)) => return st.signal().is_some(),
+                Ok(None) => {
+                    if t1.elapsed().as_secs() > 15 {
+                        let _ = child.kill();
+                        let _ = child.wait();
+                        return false;
+                    }
+                    std::thread::sleep(Duration::from_millis(2));
+                }
+                Err(_) => return false,
+            }
+        }
+    };
+    if !dies(&case) {
+        return text.to_string();
+    }
+    minimise(&case, &dies, 600).to_text()
+}
+
 /// Exit codes of the driver: 0 held, 1 violation, 2 inconclusive.
 pub fn run_driver(prop: &dyn Property, tier: Tier, verif_dir: &Path) -> i32 {
     let t0 = Instant::now();
@@ -994,6 +1046,8 @@ pub fn run_driver(prop: &dyn Property, tier: Tier, verif_dir: &Path) -> i32 {
                 if st2.and_then(|s| s.signal()).is_some() {
                     if let Ok(t) = std::fs::read_to_string(&jpath) {
                         if let Some(line) = t.lines().next() {
+                            // a crashing case cannot be shrunk in-process: minimise it by replaying candidates in child processes
+                            let line = minimise_crash(&j.exe, id, line, verif_dir, &work);
                             violations.push(Violation {
                                 case_text: line.to_string(),
                                 msg: format!("process killed by signal {} while executing this case ({} profile)", sig, j.profile),
